@@ -1,3 +1,43 @@
-From TV Require Import Base.
-Theorem C18_placeholder : True. Proof. exact I. Qed.
-Print Assumptions C18_placeholder.
+(* C18 -- board bring-up reaches an in-sync shell for any console timing or times out duly.
+   Property theorems only; proofs are in ProofC18.v over the model Boot.v (AskfirstInitializer + LinuxBootLogin).
+   The console is ARBITRARY in these theorems: any stages, any fragmentation, any timing.  Times in 2^-10 s. *)
+From TV Require Import Base Utf8 Regex Channel ChannelLemmas ProofC06 Hush Session Boot ProofC18.
+
+(* (1) with a boot timeout T configured, whatever the console does -- trickles, stalls, prints garbage, never shows
+       a prompt -- the whole Linux stage (askfirst banner, login, optional delay, password) ends no later than T after
+       it began, and it never waits for ever *)
+Theorem C18_linux_stage_has_one_deadline :
+  forall cfg T sts c r c' sts',
+  b_timeout cfg = Some T -> (0 <= T)%Z -> (0 <= b_login_delay cfg)%Z -> (forall n, b_nopw cfg = Some n -> 0 <= n)%Z ->
+  slow c = None ->
+  bringup cfg sts c = (r, c', sts') ->
+  (nowc c' <= nowc c + T)%Z /\ never_blocks r.
+Proof. exact bringup_deadline. Qed.
+Print Assumptions C18_linux_stage_has_one_deadline.
+
+(* (1b) the login part alone, entered with the timer already running (start = _boot_start set by an earlier stage) *)
+Theorem C18_login_respects_a_running_timer :
+  forall cfg T start sts c r c' sts',
+  b_timeout cfg = Some T -> (0 <= b_login_delay cfg)%Z -> (forall n, b_nopw cfg = Some n -> 0 <= n)%Z ->
+  slow c = None -> (nowc c <= start + T)%Z ->
+  login_step cfg start sts c = (r, c', sts') ->
+  (nowc c' <= start + T)%Z /\ never_blocks r.
+Proof. exact login_deadline. Qed.
+Print Assumptions C18_login_respects_a_running_timer.
+
+(* (2) the user name is sent only in response to a login prompt: while the wait for the prompt does not return,
+       not a byte is sent and the stage does not succeed; and when it returns, what was received ends with the prompt *)
+Theorem C18_nothing_sent_without_login_prompt :
+  forall cfg start sts c r c' sts',
+  login_step cfg start sts c = (r, c', sts') ->
+  (forall rem out c1, remaining cfg start c = Some rem -> read_until_prompt (Some (SLit LOGIN_P)) rem c <> (Ret out, c1)) ->
+  wr (io c') = wr (io c) /\ r <> BOk.
+Proof. exact nothing_sent_without_login_prompt. Qed.
+Print Assumptions C18_nothing_sent_without_login_prompt.
+
+Theorem C18_login_prompt_was_received :
+  forall rem c out c1,
+  wfc c -> read_until_prompt (Some (SLit LOGIN_P)) rem c = (Ret out, c1) ->
+  exists data, data <> [] /\ cpend c = data ++ cpend c1 /\ is_suffix LOGIN_P data = true.
+Proof. exact login_prompt_was_received. Qed.
+Print Assumptions C18_login_prompt_was_received.
